@@ -105,8 +105,8 @@ def guarded(run):
     except (PathAbort, symx.Budget, KeyboardInterrupt, SystemExit, GeneratorExit):
         raise
     except BaseException as e:          # noqa
-        if type(e).__name__ in ('Timeout',):
-            raise
+        if type(e).__name__ in ('Timeout', 'Unsupported', 'StepCap', 'HarnessError'):
+            raise      # cannot encode / harness limits: never a verdict
         tb = traceback.extract_tb(e.__traceback__)
         where = ''
         for f in reversed(tb):
